@@ -607,6 +607,17 @@ func genCase(t *rapid.T) Case {
 		return gr
 	}
 	for i, gp := range gps {
+		if i == len(gps)-1 && len(gps) > 1 && gen.Chance(t, "barePackage", 25) {
+			// a package with nothing in it but its package clause (nobody imports the last package):
+			// the header and footer must still be complete (seeded change C08-8)
+			edges[gp.ip] = nil
+			body := ""
+			if gen.Chance(t, "bareConst", 30) {
+				body = "const K uint64 = 3\n"
+			}
+			c.Mod.Pkgs = append(c.Mod.Pkgs, gmod.Pkg{Dir: gp.dir, Name: gp.name, Files: []gmod.File{{Name: "only.go", Body: body}}})
+			continue
+		}
 		var cands []string
 		for j := 0; j < i; j++ {
 			if gen.Range(t, fmt.Sprintf("imp%d_%d", i, j), 0, 9) < 4 {
